@@ -69,6 +69,8 @@ def make_probe(probe, cfgname, scratch, env):
     r = subprocess.run(["go", "run", "gen_main.go"], cwd=d, env=env, capture_output=True, text=True)
     if r.returncode != 0:
         return d, "generation failed for probe %s/%s:\n%s" % (probe, cfgname, (r.stdout + r.stderr)[-3000:])
+    if probe == "fed":
+        open(os.path.join(d, "graph", "zz_probe_config.go"), "w").write("package graph\n\nconst probeConfigName = %s\n" % json.dumps(cfgname))
     if probe == "core":
         # what the harnesses need to know about the generator configuration
         open(os.path.join(d, "graph", "zz_probe_config.go"), "w").write(
@@ -78,10 +80,24 @@ def make_probe(probe, cfgname, scratch, env):
     return d, None
 
 
-def probe_overlay(probe, d):
+def probe_overlay(probe, d, cfgname=""):
+    """harness files laid over the generated package; zz_cfg_<cfg>__<name>.go only under that
+    configuration (as <name>.go, possibly replacing a generated stub), zz_notcfg_<cfg>__<name>.go
+    under every other one"""
     ov = {os.path.join(REPO, "zzsym", "zzsym.go"): os.path.join(VERIF, "harness", "zzsym", "zzsym.go")}
     for f in sorted(glob.glob(os.path.join(VERIF, "probes", probe, "harness", "*.go"))):
-        ov[os.path.join(d, "graph", os.path.basename(f))] = f
+        b = os.path.basename(f)
+        if b.startswith("zz_cfg_"):
+            cfg, name = b[len("zz_cfg_"):].split("__", 1)
+            if cfg != cfgname:
+                continue
+            b = name
+        elif b.startswith("zz_notcfg_"):
+            cfg, name = b[len("zz_notcfg_"):].split("__", 1)
+            if cfg == cfgname:
+                continue
+            b = name
+        ov[os.path.join(d, "graph", b)] = f
     return ov
 
 
@@ -100,7 +116,7 @@ def prepare(specs, tier, scratch, env):
             n = dict(s)
             n.update({
                 "dir": d, "pkg": "graph", "patterns": ["./graph"], "harness_pkg": "example.com/probe/graph",
-                "under_test": [MOD, "example.com/probe/graph"], "overlay": probe_overlay(s["probe"], d),
+                "under_test": [MOD, "example.com/probe/graph"], "overlay": probe_overlay(s["probe"], d, c),
                 "hdir": os.path.join(VERIF, "probes", s["probe"], "harness"),
                 "variant": "@" + c, "replay_key": "%s_%s" % (s["probe"], c),
             })
